@@ -58,12 +58,14 @@ TStep ==
   /\ verdict = "run" /\ l <= Len(Ev) /\ UNCHANGED tr
   /\ LET e == Ev[l] IN
      \/ /\ e.ev = "render" /\ Render(e.t, e.c) /\ Finish(RenderClause(e))
+     \/ /\ e.ev = "renderdef" /\ \E j \in 1..NSec(e.t) : W[e.t].secs[j].name = e.name /\ RenderDef(e.t, j, e.arg, e.c)
+        /\ Finish(RenderClause(e))
      \/ /\ e.ev = "invbody" /\ InvalidateBody(e.t) /\ Finish(Common(e))
      \/ /\ e.ev = "invdef" /\ InvalidateDef(e.t, e.name) /\ Finish(Common(e))
      \/ /\ e.ev = "invclosure" /\ InvalidateClosure(e.t, e.name) /\ Finish(Common(e))
-     \/ /\ e.ev = "inv" /\ Invalidate(e.t, e.key) /\ Finish(Common(e))
-     \/ /\ e.ev = "set" /\ Set(e.t, e.key) /\ Finish(IF e.n # nset' THEN "set-n" ELSE Common(e))
-     \/ /\ e.ev = "get" /\ Get(e.t, e.key) /\ Finish(GetClause(e))
+     \/ /\ e.ev = "inv" /\ Invalidate(e.t, e.key, e.x) /\ Finish(Common(e))
+     \/ /\ e.ev = "set" /\ Set(e.t, e.key, e.x) /\ Finish(IF e.n # nset' THEN "set-n" ELSE Common(e))
+     \/ /\ e.ev = "get" /\ Get(e.t, e.key, e.x) /\ Finish(GetClause(e))
      \/ /\ e.ev = "toggle" /\ ToggleEnabled(e.t) /\ Finish(IF e.en # enabled'[e.t] THEN "enabled" ELSE "")
 TStuck ==
   /\ verdict = "run" /\ l <= Len(Ev) /\ ~ENABLED TStep
